@@ -22,7 +22,8 @@ func init() {
 			"R4 the auth field is decoded with base64.StdEncoding. " +
 			"R5 decodeAuth never returns one element of an unlimited split on ':' (the password is everything after the first colon). " +
 			"R6 URL-form keys of the auths table keep their port (the key normalisation never calls URL.Hostname / net.SplitHostPort). " +
-			"R7 the function returned by ExecHelper / ExecHelperWithEnv only reads the variables it captures from the creating call (locks aside): no buffer or result is shared between lookups.",
+			"R7 the function returned by ExecHelper / ExecHelperWithEnv only reads the variables it captures from the creating call (locks aside): no buffer or result is shared between lookups. " +
+			"R8 no prefix-like cutset (several characters with repeats or separators, e.g. \"http://\") is handed to strings.Trim/TrimLeft/TrimRight in ociauth: prefixes are removed as prefixes.",
 		NotDecided: "exactness of base64 decoding of the auth field, and the text of the error when several entries are malformed (it can depend on iteration order; outside the property's statement), are not decided.",
 		Technique:  "static analysis: must-pass-through on the loop body, dominance, disjunctive path facts, write-effect scan",
 	})
@@ -34,6 +35,7 @@ func runC19(c *core.Ctx) {
 	passwordIsEverythingAfterTheFirstColon(c, "C19.R5")
 	authKeysKeepThePort(c, "C19.R6")
 	helperRunnerIsStateless(c, "C19.R7")
+	prefixesRemovedAsPrefixes(c, "C19.R8", "ociauth")
 	dec := c.P.Func("ociauth", "decodeConfigFile")
 	if dec == nil {
 		c.Fail("C19.R1", "anchor/ociauth.decodeConfigFile", 0, "ociauth.decodeConfigFile not found")
